@@ -15,6 +15,7 @@ import (
 	"github.com/free5gc/chf/internal/cgf"
 	chf_context "github.com/free5gc/chf/internal/context"
 	"github.com/free5gc/chf/internal/rating"
+	"github.com/free5gc/chf/internal/sbi"
 	abmfsrv "github.com/free5gc/chf/pkg/abmf"
 	"github.com/free5gc/chf/pkg/factory"
 	rfsrv "github.com/free5gc/chf/pkg/rf"
@@ -115,11 +116,10 @@ func zzStart(cfg *factory.Config) {
 	rfsrv.OpenServer(bg, &wg)
 	abmfsrv.OpenServer(bg, &wg)
 	cgf.OpenServer(bg, &wg)
-	_ = cfg.GetSbiBindingAddr()
-	// Server.startServer: certificate paths are read for the https scheme
-	if cfg.GetSbiScheme() == "https" {
-		_ = cfg.GetCertPemPath()
-		_ = cfg.GetCertKeyPath()
+	// the real Server.startServer (listener calls stubbed): a panic there is
+	// recovered, logged as fatal and terminates the application
+	if sbi.ZZStartServer(cfg) {
+		vx.Fail("a configuration accepted by validation crashed the SBI server task")
 	}
 	ue, err := ctx.NewCHFUe("imsi-208930000000001")
 	if err != nil || ue == nil {
